@@ -1,3 +1,48 @@
 pub mod raw;
 pub mod clocks;
 pub mod sem;
+
+use crate::clock::ClockScript;
+use crate::prng::Rng;
+use crate::trace::{Event, Op};
+
+/// Session histories the generators of the individual checks do not produce by themselves:
+///  * the session is evaluated AGAIN without a new text (only after one-line texts: the
+///    statement of C04 defines what a new text does, and a one-line text is evaluated again
+///    by every further execute_session), at the instant of the following event;
+///  * the very same text is set again (set_text with an identical string).
+/// Inserted after the fact so that every check's own bookkeeping stays as it is; the
+/// executors' models follow the repeated lines dynamically.
+///  * the session's language is switched away and back between two texts (set_language twice).
+pub fn session_variants(r: &mut Rng, events: &mut Vec<Event>, rerun_den: u64, repeat_den: u64) {
+    let mut out: Vec<Event> = Vec::with_capacity(events.len() + 8);
+    let n = events.len();
+    let mut lang_of: std::collections::BTreeMap<u8, String> = std::collections::BTreeMap::new();
+    for i in 0..n {
+        let ev = events[i].clone();
+        if let Op::SessionNew { lang } | Op::SessionLang { lang } = &ev.op { lang_of.insert(ev.actor, lang.clone()); }
+        if let (Op::SessionText { .. }, Some(lang)) = (&ev.op, lang_of.get(&ev.actor)) {
+            if ev.clock.is_frozen() && r.chance(1, 12) {
+                let other = if lang == "en" { "tr" } else { "en" };
+                out.push(Event { actor: ev.actor, op: Op::SessionLang { lang: other.to_string() }, clock: ev.clock.clone() });
+                out.push(Event { actor: ev.actor, op: Op::SessionLang { lang: lang.clone() }, clock: ev.clock.clone() });
+            }
+        }
+        let next_t = events.get(i + 1).map(|e| e.clock.base()).unwrap_or(ev.clock.base());
+        // a moving clock inside the event: leave the event alone (clock atomicity is judged on one-shot steps)
+        let plain = ev.clock.is_frozen();
+        out.push(ev.clone());
+        if !plain { continue; }
+        if let Op::SessionText { text } = &ev.op {
+            // never between a session step and the re-creation of that session
+            let next_same_new = matches!(events.get(i + 1), Some(e) if e.actor == ev.actor && matches!(e.op, Op::SessionNew { .. }));
+            if next_same_new { continue; }
+            if text.lines.len() == 1 && !text.trailing_nl && rerun_den > 0 && r.chance(1, rerun_den) {
+                out.push(Event { actor: ev.actor, op: Op::SessionRerun, clock: ClockScript::Frozen { t: next_t } });
+            } else if repeat_den > 0 && r.chance(1, repeat_den) {
+                out.push(Event { actor: ev.actor, op: Op::SessionText { text: text.clone() }, clock: ClockScript::Frozen { t: next_t } });
+            }
+        }
+    }
+    *events = out;
+}
